@@ -101,6 +101,13 @@ const (
 	SPGISTNulls   = 1 << 3
 )
 
+// BRIN constants: the last uint16 of the 8-byte special space is the page type
+const (
+	BRINPageTypeMeta    = 0xF091
+	BRINPageTypeRevmap  = 0xF092
+	BRINPageTypeRegular = 0xF093
+)
+
 // IndexPageInfo contains parsed index page information
 type IndexPageInfo struct {
 	PageNumber   uint32     `json:"page_number"`
@@ -242,6 +249,8 @@ func detectIndexType(page []byte) IndexType {
 			return IndexTypeGiST
 		case pageID == SPGISTPageID:
 			return IndexTypeSPGiST
+		case specialSize == 8 && pageID >= BRINPageTypeMeta && pageID <= BRINPageTypeRegular:
+			return IndexTypeBRIN
 		}
 	}
 	
@@ -314,6 +323,8 @@ func parseIndexPage(page []byte, pageNum uint32, indexType IndexType) IndexPageI
 			parseGINPageSpecial(&info, specialData)
 		case IndexTypeSPGiST:
 			parseSPGiSTPageSpecial(&info, specialData)
+		case IndexTypeBRIN:
+			parseBRINPageSpecial(&info, specialData)
 		}
 	}
 	
@@ -471,6 +482,16 @@ func parseSPGiSTPageSpecial(info *IndexPageInfo, special []byte) {
 	if info.Flags&SPGISTNulls != 0 {
 		info.FlagStrings = append(info.FlagStrings, "NULLS")
 	}
+}
+
+// parseBRINPageSpecial parses BRIN special section: uint16 vector[4], flags in [2], page type in [3]
+func parseBRINPageSpecial(info *IndexPageInfo, special []byte) {
+	if len(special) < 8 {
+		return
+	}
+	
+	info.Flags = binary.LittleEndian.Uint16(special[4:6])
+	info.IsMeta = binary.LittleEndian.Uint16(special[6:8]) == BRINPageTypeMeta
 }
 
 // parseBTreeMeta parses BTree metapage
